@@ -111,7 +111,7 @@ def apply_cmd(m, bag, e, cmd, a, b, day, fresh):
         bag.items = []
         return ''
     if cmd == 4:
-        days = 1 + (a % 2)
+        days = a % 3  # 0, 1, 2
         _, r = scen.run_model(None, [C('empty', [str(days)], e, now=now, cwd='/')], model=m)
         if r[0]['exc']:
             return rt.fail('C09:empty-traceback', r[0]['exc'])
@@ -144,8 +144,9 @@ def _step_case(n0, slots, cmd, a, b, top_sticky):
         s = slots
         used = set()
         for j in range(n0):
-            di, ni, alt, day = s % 3, (s // 3) % 4, (s // 12) % 2, (s // 24) % 3
-            s //= 72
+            # day 5 is the very instant the command runs at, day 6 lies in the future
+            di, ni, alt, day = s % 3, (s // 3) % 4, (s // 12) % 2, [0, 1, 2, 5, 6][(s // 24) % 5]
+            s //= 120
             s += 7 * (j + 1)
             d = DIRS[di]
             path = d + '/' + NAMES[ni]
@@ -194,10 +195,10 @@ def _hist_case(c0, c1, c2, a, b):
 def w_step(n0: int, slots: int, cmd: int, a: int, b: int, top_sticky: bool) -> str:
     """
     pre: PARTITION is None or cmd == PARTITION
-    pre: 0 <= n0 <= 3 and 0 <= slots < 72 and 0 <= cmd < 6 and 0 <= a < 3 and 0 <= b < 4
+    pre: 0 <= n0 <= 3 and 0 <= slots < 120 and 0 <= cmd < 6 and 0 <= a < 3 and 0 <= b < 4
     post: _ == ''
     """
-    return _step_case(rt.sel(n0, 4), rt.sel(slots, 72), rt.sel(cmd, 6), rt.sel(a, 3), rt.sel(b, 4), rt.selb(top_sticky))
+    return _step_case(rt.sel(n0, 4), rt.sel(slots, 120), rt.sel(cmd, 6), rt.sel(a, 3), rt.sel(b, 4), rt.selb(top_sticky))
 
 
 def w_hist(c0: int, c1: int, c2: int, a: int, b: int) -> str:
@@ -214,7 +215,7 @@ def obligations(tier):
     return [
         CH('W_inductive_step', MOD, 'w_step', timeout=1800, partitions=list(range(6)), engine='W', regime='selector',
            encodes=enc, stubs=K.STUBS,
-           bounds='pre-state: 0..3 entries x 72 placements (dir, name, trash dir, date); 6 commands x 3 x 4 arguments; .Trash sticky or absent'),
+           bounds='pre-state: 0..3 entries x 120 placements (dir, name, trash dir, date); 6 commands x 3 x 4 arguments; .Trash sticky or absent'),
         CH('W_histories_len_5', MOD, 'w_hist', timeout=1800, partitions=list(range(6)), engine='W', regime='selector',
            encodes=enc, stubs=K.STUBS,
            bounds='2 puts then every sequence of 3 commands out of 6 kinds x 3 x 4 argument seeds; trash-list checked after every step'),
